@@ -82,3 +82,25 @@ extern "C" void vh_c11_many() {
     nixsym_assert(g.getBlock("b").dataArrayCount() == n, "everything created before close is there after reopen");
     nixsym_reach("released");
 }
+
+// two sessions on the same path in one process (a writer with every handle alive, and a second open of the file): once both are
+// closed - in either order - no identifier of the file is left open and the path can be truncated
+extern "C" void vh_c11_two_sessions() {
+    nixsym_declare_reach("released");
+    World w;
+    build_world(w);
+    w.f.flush();
+    File r = File::open(WORLD_FILE, FileMode::ReadOnly);
+    Block rb = r.getBlock("blk");
+    DataArray ra = rb.getDataArray("da1");
+    bool reader_first = nixsym_choice("reader_first", 2) == 1;
+    bool keep = nixsym_choice("keep_handles", 2) == 1;          // entity handles of the writer alive or dropped at its close
+    if (reader_first) r.close(); else w.f.close();
+    if (!keep) { drop_handles(w); rb = none; ra = none; }
+    if (reader_first) w.f.close(); else r.close();
+    nixsym_assert(!w.f.isOpen() && !r.isOpen(), "both sessions report closed");
+    nixsym_assert(h5m_open_ids(WORLD_FILE, 1) == 0 && !h5m_file_is_open(WORLD_FILE), "after both sessions are closed an HDF5 identifier of the file is still open (file not released)");
+    nixsym_reach("released");
+    File g = File::open(WORLD_FILE, FileMode::Overwrite);
+    nixsym_assert(g.isOpen() && g.blockCount() == 0, "path can be reopened with truncation after both sessions closed");
+}
